@@ -70,6 +70,8 @@ def loop_drivers(eng):
     g = eng.fn
     loops = g.loops(unwind=False)
     out = {}
+    leaves = {}
+    eng._driver_leaves = leaves
     # pipelines expanded by the inliner: the block that used to call `next` on the whole pipeline stands for that call;
     # the `next` calls synthesised for the stages underneath are not loop drivers of their own
     virtual = {}
@@ -88,6 +90,7 @@ def loop_drivers(eng):
         drv = None
         if kind == "iter" and ev.op == "next" and g.blocks[b]["term"].get("lazy_inner") and b not in virtual:
             continue
+        leaf = b
         if kind == "iter" and ev.op == "next" and b in virtual:
             b = virtual[b]
         if kind == "iter" and ev.op == "next":
@@ -110,6 +113,7 @@ def loop_drivers(eng):
                 best = hdr
         if best is not None and best not in out:
             out[best] = drv
+            leaves[best] = leaf
     return loops, out
 
 
@@ -123,6 +127,12 @@ def iter1(eng, out):
             continue
         body = loops[hdr]
         out.obl("ITER-1", "loop:%s" % kind, (eng.name, nb))
+        # a loop that is not nested in another loop and whose driving call had returned None in every state that reaches
+        # the function's return was left through exhaustion only (this also covers drivers wrapped in helper functions
+        # or iterator types of the crate, whose own exits are not the loop's exits)
+        nested = any(h2 != hdr and hdr in b2 and body < b2 for h2, b2 in loops.items())
+        leaf_site = getattr(eng, "_driver_leaves", {}).get(hdr, nb)
+        exhausted_ok = bool(not nested and eng.return_states and eng.drv_at_return.get(leaf_site) and eng.drv_at_return[leaf_site] <= {"0"})
         dterm = g.blocks[nb]["term"]
         is_pop_driver = dterm["k"] == "call" and dterm.get("callee") and dterm["callee"]["def"].endswith(("::pop", "::pop_front", "::pop_back"))
         # user code inside a hash-ordered loop: if it panics, the elements processed so far are an
@@ -166,6 +176,9 @@ def iter1(eng, out):
                     continue
                 if not effectful:
                     out.obl("ITER-1", "pure-search-exit", (eng.name, u))
+                    continue
+                if exhausted_ok:
+                    out.obl("ITER-1", "exhausted-at-return", (eng.name, nb))
                     continue
                 if is_pop_driver and (not returns_without(g, v, nb) or (eng.return_states and eng.drv_at_return.get(nb, set()) <= {"0"})):
                     # a helper that pops until it finds an unvisited node hands it to its caller's loop, which pops again:
